@@ -187,6 +187,25 @@ extern "C" void verif_harness() {
     }
     delete p;
     break; }
+  case 6: {   // description parser: a finite grammar of bracket descriptions read into a fresh interval (string constructor) or into an existing interval with arbitrary bounds and flags; decided for a symbolic test point
+    static const char* LO[] = {"-inf", "0", "-2.5", "1e-3", "3"}; static const double LOV[] = {-INF, 0, -2.5, 1e-3, 3};
+    static const char* UP[] = {"inf", "+inf", "1", "7.25", "3"}; static const double UPV[] = {INF, INF, 1, 7.25, 3};
+    int ol = __sym_choose("open", 0, 1), cl = __sym_choose("close", 0, 1), lo = __sym_choose("lowerToken", 0, 4), up = __sym_choose("upperToken", 0, 4);
+    string desc = string(ol ? "]" : "[") + LO[lo] + ";" + UP[up] + (cl ? "[" : "]");
+    bool il = !ol, iu = !cl; double L = LOV[lo], U = UPV[up];
+    int fresh = __sym_choose("fresh", 0, 1);
+    unique_ptr<IntervalConstraint> c;
+    if (fresh) c.reset(new IntervalConstraint(desc));
+    else { Itv i = anyInterval("c"); c.reset(new IntervalConstraint(i.l, i.u, i.il, i.iu)); c->readDescription(desc); }
+    double t = anyValue("t");
+    SYM_ASSERT(c->isCorrect(t) == spec(L, U, il, iu, t), "a description does not parse to the interval it denotes (membership of a test point differs)");
+    SYM_ASSERT(c->getLowerBound() == L && c->getUpperBound() == U && c->strictLowerBound() == !il && c->strictUpperBound() == !iu, "a description does not parse to the bounds and flags it denotes");
+    SYM_ASSERT(c->isEmpty() == specEmpty(L, U, il, iu), "emptiness of a parsed interval differs from 'no real is accepted'");
+    // a parameter constrained by the parsed interval obeys it
+    double v = anyValue("v"); bool threw = false; Parameter* p = nullptr; shared_ptr<IntervalConstraint> sc(c.release());
+    try { p = new Parameter("x", v, sc); } catch (ConstraintException&) { threw = true; }
+    SYM_ASSERT(threw == !spec(L, U, il, iu, v), "constructor with a parsed constraint: raise condition differs from membership"); delete p;
+    break; }
   case 5: {   // auto-correcting parameter
     Itv i = anyInterval("c"); double v0 = anyValue("v0"), x = anyValue("x");
     SYM_ASSUME(spec(i.l, i.u, i.il, i.iu, v0));
